@@ -34,6 +34,9 @@ def prove(chk):
     if not m:
         raise checklib.Machinery("TLAPS did not prove ChunkProofs.tla:\n" + p.stdout[-1500:])
     n = int(m.group(1))
+    chk.cov["obligations"] = chk.cov.get("obligations", 0) + n
+    chk.cov["discharged"] = chk.cov.get("discharged", 0) + n
+    chk.cov["checker_cmd"] = "tlapm --cleanfp spec/ChunkProofs.tla"
     chk.note(f"TLAPS: all {n} obligations of ChunkProofs.tla proved (Cover, SumAll, SizesInRange, NormSame, RowInChunk for ALL n, rpc >= 1)")
     chk.assumptions.append("unbounded chunk arithmetic: proved by TLAPS (ChunkProofs.tla), not only evaluated on TLC's grid")
     return n
